@@ -826,13 +826,13 @@ def neutral_edit(desc: D, rng):
 BREAK_EDITS = ('kind', 'arity+', 'arity-', 'key', 'ntclass', 'meta', 'node2leaf', 'none2leaf', 'leaf2none', 'none2node')
 
 
-def breaking_edit(desc: D, rng):  # noqa: C901
+def breaking_edit(desc: D, rng, only=None):  # noqa: C901
     """Exactly one local edit after which ``desc`` is NOT a prefix of the result.
     Returns (new desc, edit name) or (None, None) when no edit applies."""
     out = desc.copy()
     nodes = [n for n in out.walk()]
     rng.shuffle(nodes)
-    edits = list(BREAK_EDITS)
+    edits = [e for e in BREAK_EDITS if only is None or e in only]
     rng.shuffle(edits)
     for e in edits:
         for node in nodes:
@@ -841,7 +841,8 @@ def breaking_edit(desc: D, rng):  # noqa: C901
                 return out, e
             if e == 'arity+' and node.k in ('tuple', 'list', 'deque', 'dict', 'odict'):
                 if node.k in DICTS:
-                    newk = f'extra_key_{rng.randrange(1000)}' if node.keystyle == 'kw' else ('extra-key', rng.randrange(1000))
+                    all_str = all(type(k) is str for k, _ in node.items)
+                    newk = f'extra_key_{rng.randrange(1000)}' if (node.keystyle == 'kw' or all_str) else ('extra-key', rng.randrange(1000))
                     node.items.append((newk, D('leaf', meta='L')))
                 else:
                     node.items.append(D('leaf', meta='L'))
@@ -853,7 +854,8 @@ def breaking_edit(desc: D, rng):  # noqa: C901
                 return out, e
             if e == 'key' and node.k in DICTS and node.items:
                 i = rng.randrange(len(node.items))
-                newk = f'renamed_{rng.randrange(1000)}' if node.keystyle == 'kw' else ('renamed', rng.randrange(1000))
+                all_str = all(type(k) is str for k, _ in node.items)
+                newk = f'renamed_{rng.randrange(1000)}' if (node.keystyle == 'kw' or all_str) else ('renamed', rng.randrange(1000))
                 node.items[i] = (newk, node.items[i][1])
                 return out, e
             if e == 'ntclass' and node.k == 'nt' and node.cls in (U.Point, U.PointSub, U.PointMeth):
